@@ -46,8 +46,8 @@ struct RunCtx
 };
 struct TaskCtx
 {
-  RunCtx * run; int index; std::vector<Rec> * out; std::vector<uint64_t> * consumed;
-  uint64_t lastSeq = 0; uint64_t ops = 0;
+  RunCtx * run; int index; const Task * task; std::vector<Rec> * out; std::vector<uint64_t> * consumed;
+  uint64_t lastSeq = 0; uint64_t ops = 0; bool recordAlways = false;
 };
 
 std::string gLabels[S_COUNT][O_COUNT];
@@ -101,7 +101,7 @@ void taskMain(void * arg)
 {
   TaskCtx & tc = *(TaskCtx *)arg;
   const Plan & p = *tc.run->plan; Subject & s = *tc.run->s;
-  const Task & task = p.tasks[(size_t)tc.index];
+  const Task & task = *tc.task;
   const int sc = p.scenario;
   const char * cls = scenarioName(sc);
   const int mkind = sc == S_CHECKUP_EQ ? model::EqualTo : sc == S_CHECKUP_GT ? model::GreaterThan : sc == S_CHECKUP_LT ? model::LowerThan :
@@ -167,7 +167,7 @@ void taskMain(void * arg)
       simrt::opEnd();
       rec.ret = simrt::stamp();
       ++tc.ops;
-      if (!p.longRun) {tc.out->push_back(rec); continue;}
+      if (!p.longRun || tc.recordAlways) {tc.out->push_back(rec); continue;}
       // ---- O(1) monitors of the long runs
       switch (op.kind) {
         case O_LOAD:
@@ -230,11 +230,32 @@ ExecResult runScenario(const Plan & p, bool recordTrace)
   std::vector<TaskCtx> tcs(nTasks);
   static const char * roles[] = {"writer", "reader", "watchdog"};
   for (size_t k = 0; k < nTasks; ++k) {
-    tcs[k].run = &run; tcs[k].index = (int)k; tcs[k].out = &res.hist[k]; tcs[k].consumed = &res.consumed[k];
+    tcs[k].run = &run; tcs[k].index = (int)k; tcs[k].task = &p.tasks[k]; tcs[k].out = &res.hist[k]; tcs[k].consumed = &res.consumed[k];
     if (!p.longRun) {res.hist[k].reserve(p.tasks[k].ops.size() * p.tasks[k].repeat + 1);} else {res.consumed[k].reserve(1024);}
     simrt::spawn(taskMain, &tcs[k], roles[std::min(2, std::max(0, p.tasks[k].role))]);
   }
   simrt::runAll();
+  // after the join: the main context observes the final state once more. Every call has returned, so whatever
+  // sequential order explains the history, these observations come last in it.
+  Task finalTask; finalTask.role = 1;
+  TaskCtx finalCtx;
+  if (!simrt::failed()) {
+    auto add = [&](int kind) {Op o; o.kind = kind; finalTask.ops.push_back(o);};
+    switch (p.scenario) {
+      case S_SHARED_VAR: add(O_LOAD); break;
+      case S_SHARED_OPT: add(O_CONSUME); add(O_CONSUME); break;
+      case S_ONLINE_AVG: add(O_GET_AVG); add(O_IS_AVAIL); break;
+      case S_ONLINE_VAR: add(O_GET_AVG); add(O_IS_AVAIL); add(O_GET_VAR); break;
+      case S_RATE_MON: add(O_RM_GET_RATE); break;
+      case S_CHECKUP_RATE_EQ: case S_CHECKUP_RATE_GT: add(O_CR_GET_REPORT); break;
+      default: add(O_GET_REPORT);
+    }
+    res.hist.emplace_back(); res.consumed.emplace_back(); res.finalTask = (int)nTasks;
+    res.hist.back().reserve(4);
+    finalCtx.run = &run; finalCtx.index = (int)nTasks; finalCtx.task = &finalTask; finalCtx.out = &res.hist.back(); finalCtx.consumed = &res.consumed.back();
+    finalCtx.recordAlways = true;
+    taskMain(&finalCtx);
+  }
   simrt::end();
   res.stats = simrt::stats();
   res.trace = simrt::trace();
